@@ -173,3 +173,13 @@ Proof.
   - intros q [<-|[<-|[]]]; [left|right]; reflexivity.
   - intros e He. cbn in He. repeat (destruct He as [<-|He]; [cbn; lia|]). destruct He.
 Qed.
+
+(* crash_free is needed in mutex_no_leftovers: from NO files at all, one crash of the first authority turns the state into
+   a dead-leftover state and the S13 race between the two other contenders follows *)
+Definition three_servers : list proc := [fresh 1 DServer; fresh 2 DServer; fresh 3 DServer].
+Definition crash_sched : list event := rep 2 0 0 ++ [Crash 0] ++ rep 6 1 0 ++ rep 6 2 0 ++ rep 4 1 0 ++ rep 4 2 0.
+Lemma no_leftovers_needs_crash_free :
+  exists sched : list event,
+    holders (run true (init LAbsent MAbsent three_servers) sched) = [2; 3]
+    /\ s_took_lock (run true (init LAbsent MAbsent three_servers) sched) = true.
+Proof. exists crash_sched. vm_compute. split; reflexivity. Qed.
